@@ -197,8 +197,9 @@ End ==
 \* a long generated input streamed through a parser (C10): the reader's buffer obeys the design model's
 \* BufBound (3 chunks + the largest look-ahead, here the longest item) and the peak heap depends on the
 \* chunk size and the longest item only - not on the number of bytes or items processed
-StreamOk(res, nitems, expected, chunk, maxItem, peak, maxBufLen, maxBufCap) ==
-  /\ res = "ok" /\ nitems >= expected
+\* expectErr: the stream is well-formed up to a final item that must be rejected
+StreamOk(res, expectErr, nitems, expected, chunk, maxItem, peak, maxBufLen, maxBufCap) ==
+  /\ res = (IF expectErr THEN "err" ELSE "ok") /\ nitems >= expected
   /\ maxBufLen <= 3 * chunk + maxItem + 64
   /\ maxBufCap <= 2 * (3 * chunk + maxItem + 64)
   /\ peak <= 8 * chunk + 16 * maxItem + 65536
